@@ -16,9 +16,12 @@ Proved:
   (the unstacking slices tile `[0, Σ)`);
 * TSQR block algebra over a commutative ring, two row blocks: `tsqr_two_blocks` (`Q R = A`), `tsqr_two_blocks_orthonormal`
   (`QᵀQ = 1` if the block factors have orthonormal columns), `svd_from_qr` (`A = Q R`, `R = U S Vᵀ` ⇒ `A = (Q U) S Vᵀ`),
-  `sfqr_two_blocks` (short-and-fat: `[A₁ A₂] = Q [R₁ QᵀA₂]`).
-Not proved: the general n-block/recursive TSQR, `sfqr`, floating-point accuracy of LAPACK factors (validated by
-residual checks), einsum index parsing (NumPy's).
+  `sfqr_two_blocks` (short-and-fat: `[A₁ A₂] = Q [R₁ QᵀA₂]`);
+* the same for ANY number of blocks of any (different) heights, rows indexed by `Σ i, m i` and Mathlib's
+  `blockDiagonal'`: `tsqr_n_blocks`, `tsqr_n_blocks_orthonormal`, `tsqr_recursive` (the stacked R factors factored by
+  another TSQR level), `sfqr_n_blocks`, `svd_from_qr_orthonormal`.
+Not proved: that dask's graph wires exactly these products (the stacking plan is proved and diffed, the factors are
+checked by residuals), floating-point accuracy of LAPACK factors, einsum index parsing (NumPy's).
 -/
 namespace Dask.C31
 open Dask.Contraction
@@ -241,6 +244,87 @@ theorem sfqr_two_blocks {n₂ : Type} [Fintype n₂] (A₁ R₁ : Matrix n n K) 
 
 end tsqr
 
+
+section tsqr_n
+open Matrix
+set_option linter.unusedSectionVars false
+variable {K : Type} [CommRing K] {o n p : Type} [Fintype o] [DecidableEq o] [Fintype n] [DecidableEq n]
+  [Fintype p] [DecidableEq p]
+  {m k : o → Type} [∀ i, Fintype (m i)] [∀ i, Fintype (k i)] [∀ i, DecidableEq (m i)] [∀ i, DecidableEq (k i)]
+
+/-- the blocks `B i` stacked by rows (a row-chunked dask matrix; the chunk heights `k i` may all differ) -/
+def stackRows (B : ∀ i, Matrix (k i) n K) : Matrix (Σ i, k i) n K := fun x j => B x.1 x.2 j
+
+theorem blockDiagonal'_mul_stackRows (Q : ∀ i, Matrix (m i) (k i) K) (R : ∀ i, Matrix (k i) n K) :
+    blockDiagonal' Q * stackRows R = stackRows (fun i => Q i * R i) := by
+  ext ⟨i, r⟩ j
+  simp only [Matrix.mul_apply, stackRows, Fintype.sum_sigma, blockDiagonal'_apply]
+  rw [Finset.sum_eq_single i]
+  · simp
+  · intro i' _ hne
+    simp [hne.symm]
+  · simp
+
+/-- **tsqr_n_blocks**: `A = [A₁; …; A_N]` (any number of row blocks of any heights), `Aᵢ = Qᵢ Rᵢ`, and the stacked
+    `[R₁; …; R_N] = Q' R'` ⇒ `A = (blockdiag(Q₁ … Q_N) Q') R'`.  How `Q' R'` was obtained does not matter, so the
+    statement also covers dask's recursive case (the stacked R factors are themselves factored by TSQR). -/
+theorem tsqr_n_blocks (A : ∀ i, Matrix (m i) n K) (Q : ∀ i, Matrix (m i) (k i) K) (R : ∀ i, Matrix (k i) n K)
+    (Q' : Matrix (Σ i, k i) p K) (R' : Matrix p n K)
+    (h : ∀ i, A i = Q i * R i) (h' : stackRows R = Q' * R') :
+    stackRows A = (blockDiagonal' Q * Q') * R' := by
+  rw [Matrix.mul_assoc, ← h', blockDiagonal'_mul_stackRows]
+  congr
+  funext i
+  exact h i
+
+/-- **tsqr_n_blocks_orthonormal**: if every `Qᵢ` and `Q'` have orthonormal columns, so has `Q = blockdiag(Qᵢ) Q'` -/
+theorem tsqr_n_blocks_orthonormal (Q : ∀ i, Matrix (m i) (k i) K) (Q' : Matrix (Σ i, k i) p K)
+    (hq : ∀ i, (Q i)ᵀ * Q i = 1) (hq' : Q'ᵀ * Q' = 1) :
+    (blockDiagonal' Q * Q')ᵀ * (blockDiagonal' Q * Q') = 1 := by
+  rw [Matrix.transpose_mul, Matrix.mul_assoc, ← Matrix.mul_assoc (blockDiagonal' Q)ᵀ]
+  have : (blockDiagonal' Q)ᵀ * blockDiagonal' Q = (1 : Matrix (Σ i, k i) (Σ i, k i) K) := by
+    rw [blockDiagonal'_transpose, ← blockDiagonal'_mul]
+    simp only [hq]
+    exact blockDiagonal'_one
+  rw [this, Matrix.one_mul, hq']
+
+/-- **tsqr_recursive**: the recursive step composes — if the stacked R factors are factored by another TSQR level
+    (`Q' = blockdiag(P_g) P'` over a regrouping is abstracted as `Q' = D₂ * Q''`), the result is still a QR of `A` with
+    orthonormal `Q`. -/
+theorem tsqr_recursive {q : Type} [Fintype q] [DecidableEq q]
+    (A : ∀ i, Matrix (m i) n K) (Q : ∀ i, Matrix (m i) (k i) K) (R : ∀ i, Matrix (k i) n K)
+    (D₂ : Matrix (Σ i, k i) q K) (Q'' : Matrix q p K) (R' : Matrix p n K)
+    (h : ∀ i, A i = Q i * R i) (h' : stackRows R = (D₂ * Q'') * R')
+    (hq : ∀ i, (Q i)ᵀ * Q i = 1) (hd : D₂ᵀ * D₂ = 1) (hq'' : Q''ᵀ * Q'' = 1) :
+    stackRows A = (blockDiagonal' Q * (D₂ * Q'')) * R' ∧
+    (blockDiagonal' Q * (D₂ * Q''))ᵀ * (blockDiagonal' Q * (D₂ * Q'')) = 1 := by
+  refine ⟨tsqr_n_blocks A Q R (D₂ * Q'') R' h h', tsqr_n_blocks_orthonormal Q (D₂ * Q'') hq ?_⟩
+  rw [Matrix.transpose_mul, Matrix.mul_assoc, ← Matrix.mul_assoc D₂ᵀ, hd, Matrix.one_mul, hq'']
+
+/-- the blocks `B j` side by side (a column-chunked dask matrix) -/
+def stackCols {c : o → Type} (B : ∀ j, Matrix n (c j) K) : Matrix n (Σ j, c j) K := fun i x => B x.1 i x.2
+
+/-- **sfqr_n_blocks** (short-and-fat, any number of column blocks): with `Q` square orthogonal (from the QR of the
+    first block) and `R_j = Qᵀ A_j` for every block, `[A₁ … A_N] = Q [R₁ … R_N]`. -/
+theorem sfqr_n_blocks {c : o → Type} (A : ∀ j, Matrix n (c j) K) (Q : Matrix n n K) (ho : Q * Qᵀ = 1) :
+    stackCols A = Q * stackCols (fun j => Qᵀ * A j) := by
+  ext i ⟨j, x⟩
+  have : (Q * (Qᵀ * A j)) i x = A j i x := by rw [← Matrix.mul_assoc, ho, Matrix.one_mul]
+  simp only [stackCols, Matrix.mul_apply] at this ⊢
+  exact this.symm
+
+/-- `svd` on top of any QR: `A = Q R`, `R = U S Vᵀ` ⇒ `A = (Q U) S Vᵀ`, and `Q U` keeps orthonormal columns -/
+theorem svd_from_qr_orthonormal {r : Type} [Fintype r] [DecidableEq r] {mm : Type} [Fintype mm]
+    (Q : Matrix mm r K) (U : Matrix r r K) (hq : Qᵀ * Q = 1) (hu : Uᵀ * U = 1) : (Q * U)ᵀ * (Q * U) = 1 := by
+  rw [Matrix.transpose_mul, Matrix.mul_assoc, ← Matrix.mul_assoc Qᵀ, hq, Matrix.one_mul, hu]
+
+/-- non-vacuity: three 2×2 row blocks over ℤ with trivial factors -/
+example (A : Fin 3 → Matrix (Fin 2) (Fin 2) Int) :
+    stackRows A = (blockDiagonal' (fun _ : Fin 3 => (1 : Matrix (Fin 2) (Fin 2) Int)) *
+      (1 : Matrix (Σ _ : Fin 3, Fin 2) (Σ _ : Fin 3, Fin 2) Int)) * stackRows A :=
+  tsqr_n_blocks A (fun _ => 1) A 1 (stackRows A) (by simp) (by simp)
+
+end tsqr_n
 /-- non-vacuity: chunks (3,1,2) of a length-6 axis -/
 example : blockTerms (fun l => (l : Int) * 2) 0 [3, 1, 2] = [6, 6, 18] ∧ sumTo 6 (fun l => (l : Int) * 2) = 30 := by
   decide
